@@ -17,17 +17,32 @@ import (
 // transient errors; real `check --read-data` after every interrupted
 // operation and at the end.
 func TestVerifC15(t *testing.T) {
-	hx.Main(t, "C15", func(r *hx.Rec) {
+	hx.Main(t, "C15", func(r *hx.Rec) { runHistory(r, false) })
+}
+
+// runHistory is shared by C15 (check is clean on every produced repository)
+// and C04 (secrecy monitor over everything that is ever stored).
+func runHistory(r *hx.Rec, secrecy bool) {
+	{
 		tp := r.Tape
 		cfg := genCfg(tp)
 		w := newWorld(r, cfg)
+		w.markers = secrecy
 		nOps := tp.Range(2, 8)
 		r.Set("cfg", cfg.String())
 		simrt.Run(r.T, w.s, 15*time.Minute, func() {
 			w.begin()
 			defer w.end()
+			var mon *secrecyMonitor
+			if secrecy {
+				mon = w.newSecrecyMonitor()
+			}
 			if !w.setup() {
 				return
+			}
+			if mon != nil {
+				mon.key = w.key
+				defer mon.finish()
 			}
 			tree := w.genTree(10)
 			var hist []string
@@ -124,5 +139,5 @@ func TestVerifC15(t *testing.T) {
 			w.checkClean("check-at-end", fmt.Sprintf("history %v", hist))
 			w.verifyAll("snapshots-at-end", fmt.Sprintf("history %v", hist))
 		})
-	})
+	}
 }
